@@ -166,7 +166,7 @@ Ltac t_sp Hsp Hd :=
 
 Ltac t_spd Hspd Hd := t_sp Hspd Hd.
 
-Ltac unf H := unfold step, GuardNow in H; cbn [v_guard_old v_load_old v_track_old v_drop_old v_nil_old v_raw_err] in H.
+Ltac unf H := unfold step, GuardNow in H; cbn [v_guard_old v_load_old v_track_old v_drop_old v_nil_old v_raw_err v_map_reset] in H.
 
 Ltac fin0 := constructor; cbn; auto; try congruence; try (intros; discriminate).
 Ltac fin Hc Hn Hf Hm Hcl Hfl Hsp Hspd Hg :=
@@ -325,6 +325,7 @@ Proof.
     apply Nat.eqb_eq in E. subst c0. cbn in H. injection H as <-.
     destruct next as [|[|n]]; (constructor; cbn; auto; try (intros; discriminate);
       intros c1 Hc1; injection Hc1 as <-; apply (Hspd c); reflexivity).
+  - (* LReServe *) brk H; injection H as <-; fin0.
 Qed.
 
 Theorem reach_inv k s : reach GuardNow k s -> inv k s.
@@ -474,6 +475,7 @@ Proof.
   - cs H. brk Hy; injection Hy as <-; t_keep G Hg.
   - destruct (sp s) eqn:Esp; try discriminate. destruct (Nat.eqb c0 c1) eqn:E; try discriminate.
     cbn in H. injection H as <-. same G.
+  - brk H; injection H as <-; same G.
 Qed.
 
 (* ---------- flags: listener, shutdown flag, serve's result ---------- *)
@@ -490,7 +492,7 @@ Record finv (v : variant) (k : cfg) (s : state) : Prop := {
   f_ret : returned (sp s) = true -> lis_open s = false;
   f_shut : sd s <> SdIdle -> shut s = true;
   f_good : sd_good s = true -> forall e, sp s = SReturned e -> e = EClosed;
-  f_set : lis_set s = lis_is_set (sp s);
+  f_set : lis_set s = false -> lis_is_set (sp s) = false;
   f_ran : v_nil_old v = false -> sd_ran s = true -> in_loop (sp s) = true -> lis_open s = false;
   f_lis : lis_open s = false -> shut s = true \/ cancelled s = true \/ returned (sp s) = true;
   f_cb : sp_needs_cb (sp s) = true -> on_accept k = true;
@@ -615,6 +617,9 @@ Proof.
   - destruct (sp s) eqn:Esp; try discriminate. destruct (Nat.eqb c c0) eqn:E; try discriminate.
     destruct (v_raw_err v && Nat.eqb next 0 && negb (on_error k)); injection H as <-; [fext|].
     destruct next as [|[|n]]; ffin.
+  - (* LReServe *) destruct (sp s) eqn:Esp; try discriminate. destruct (cancelled s && negb (shut s) && negb (v_drop_old v)) eqn:E; try discriminate.
+    apply andb_prop in E as [E _]. apply andb_prop in E as [_ E]. destruct (shut s) eqn:Es; try discriminate.
+    injection H as <-. destruct (v_map_reset v); ffin.
 Qed.
 
 (* ---------- a pass of Shutdown that has found everything idle has visited the whole map ---------- *)
@@ -755,6 +760,7 @@ Proof.
   - cs H. brk Hy; injection Hy as <-; t_cov Hcov Hm Hg.
   - destruct (sp s) eqn:Esp; try discriminate. destruct (Nat.eqb c c0) eqn:E; try discriminate.
     cbn in H. injection H as <-. t_same Hcov.
+  - brk H; injection H as <-; t_same Hcov.
 Qed.
 
 Lemma finv_init v k : finv v k init.
@@ -777,11 +783,11 @@ Definition is_serve (l : label) : bool := match label_gor l with GServe => true 
 Fixpoint count_serve (ls : list label) : nat :=
   match ls with [] => 0 | l :: t => (if is_serve l then 1 else 0) + count_serve t end.
 
-Lemma serve_step_measure v k s l s' : v_raw_err v = false -> lis_open s = false -> step v k s l = Some s' ->
+Lemma serve_step_measure v k s l s' : v_raw_err v = false -> l <> LReServe -> lis_open s = false -> step v k s l = Some s' ->
   lis_open s' = false /\
   (if is_serve l then serve_left (sp s') < serve_left (sp s) else sp s' = sp s).
 Proof.
-  intros Hv Hl H. unfold step in H. rewrite ?Hv in H. destruct (crashed s); [discriminate|].
+  intros Hv Hnr Hl H. unfold step in H. rewrite ?Hv in H. destruct (crashed s); [discriminate|].
   destruct l; unfold is_serve; cbn [label_gor].
   - brk H; injection H as <-; cbn; rewrite ?Heqs0; cbn; first [split; [first [assumption|reflexivity]|lia] | auto].
   - brk H; injection H as <-; cbn; rewrite ?Heqs0; cbn; first [split; [first [assumption|reflexivity]|lia] | auto].
@@ -841,20 +847,23 @@ Proof.
   - cs H. brk Hy; injection Hy as <-; cbn; first [split; [first [assumption|reflexivity]|lia] | auto].
   - destruct (sp s) eqn:Esp; try discriminate. destruct (Nat.eqb c c0) eqn:E; try discriminate.
     cbn in H. injection H as <-. destruct next as [|[|n]]; cbn; (split; [assumption|lia]).
+  - congruence.
 Qed.
 
-Theorem serve_bounded v k : v_raw_err v = false -> forall ls s s', lis_open s = false -> run v k s ls = Some s' ->
+Theorem serve_bounded v k : v_raw_err v = false -> forall ls s s', ~ In LReServe ls -> lis_open s = false -> run v k s ls = Some s' ->
   count_serve ls + serve_left (sp s') <= serve_left (sp s) /\ lis_open s' = false.
 Proof.
-  intros Hv. induction ls as [|l t IH]; intros s s' Hl H; cbn in H.
+  intros Hv. induction ls as [|l t IH]; intros s s' Hn Hl H; cbn in H.
   - injection H as <-. cbn. split; [lia|exact Hl].
   - destruct (step v k s l) as [s1|] eqn:E; [|discriminate].
-    destruct (serve_step_measure _ _ _ _ _ Hv Hl E) as [Hl1 Hm]. destruct (IH _ _ Hl1 H) as [Hc Hl']. split; [|exact Hl'].
+    assert (N1 : l <> LReServe) by (intros ->; apply Hn; left; reflexivity).
+    assert (N2 : ~ In LReServe t) by (intros A; apply Hn; right; exact A).
+    destruct (serve_step_measure _ _ _ _ _ Hv N1 Hl E) as [Hl1 Hm]. destruct (IH _ _ N2 Hl1 H) as [Hc Hl']. split; [|exact Hl'].
     cbn [count_serve]. destruct (is_serve l); [lia|rewrite Hm in Hc; lia].
 Qed.
-Corollary serve_bounded_8 v k ls s s' : v_raw_err v = false -> lis_open s = false -> run v k s ls = Some s' -> count_serve ls <= 8.
+Corollary serve_bounded_8 v k ls s s' : v_raw_err v = false -> ~ In LReServe ls -> lis_open s = false -> run v k s ls = Some s' -> count_serve ls <= 8.
 Proof.
-  intros Hv Hl H. destruct (serve_bounded v k Hv ls s s' Hl H) as [Hc _].
+  intros Hv Hn Hl H. destruct (serve_bounded v k Hv ls s s' Hn Hl H) as [Hc _].
   assert (serve_left (sp s) <= 8) by (destruct (sp s) as [| | | | | | | | |? [|?]| |]; cbn; lia). lia.
 Qed.
 
@@ -1220,6 +1229,15 @@ Proof.
     { intros s1 E1. unfold pinv, get in *. rewrite E1. intros c' x' G' P'.
       destruct (HP c' x' G' P') as [A|[_ A]]; rewrite Esp in A; discriminate. }
     destruct (v_raw_err v && Nat.eqb next 0 && negb (on_error k)); injection H as <-; apply A; reflexivity.
+  - (* LReServe *) destruct (sp s) eqn:Esp; try discriminate.
+    destruct (cancelled s && negb (shut s) && negb (v_drop_old v)) eqn:E; try discriminate.
+    apply andb_prop in E as [_ E]. destruct (v_drop_old v) eqn:Ed; try discriminate. injection H as <-.
+    assert (N : forall c x, get s c = Some x -> ph x <> PAccepted).
+    { intros c x G P. destruct (HP c x G P) as [A|[A _]]; [rewrite Esp in A; cbn in A; discriminate|congruence]. }
+    unfold pinv. intros c x G P. exfalso. destruct (v_map_reset v).
+    + unfold get in G. cbn in G. rewrite nth_error_map in G. destruct (nth_error (conns s) c) as [y|] eqn:Gy; [|discriminate].
+      injection G as <-. apply (N c y Gy). crec y. exact P.
+    + apply (N c x G P).
 Qed.
 
 
@@ -1550,6 +1568,7 @@ Proof.
   - cs H. brk Hy; injection Hy as <-; t_tin Ht Hm Hg.
   - destruct (sp s) eqn:Esp; try discriminate. destruct (Nat.eqb c c0) eqn:E; try discriminate.
     cbn in H. injection H as <-. t_tsame Ht.
+  - brk H; injection H as <-; t_tsame Ht.
 Qed.
 
 Theorem reach_tinv k s : reach GuardNow k s -> tinv s.
@@ -1812,3 +1831,46 @@ Lemma now_reject_close_error_ok :
   exists s x, run GuardNow cfg_accept_only init reject_close_error_run = Some s /\ crashed s = false /\ sp s = SLoop /\
               get s 0 = Some x /\ ph x = PRejected /\ sock x = false /\ close_cb x = 0 /\ errs s = 0.
 Proof. eexists. eexists. split; [vm_compute; reflexivity|]. repeat split; reflexivity. Qed.
+
+(* ---------- serving the same Server value again ---------- *)
+(* LReServe keeps the tracked set, the counter and every connection: Shutdown still knows the connections
+   of the earlier call of serve.  (All invariants above are proved over runs that contain LReServe steps:
+   none of them says which call of serve accepted a connection.) *)
+Theorem reserve_keeps_tracked k s s' : step GuardNow k s LReServe = Some s' ->
+  conns s' = conns s /\ count s' = count s /\ sd s' = sd s /\ shut s' = false /\ mu s' = mu s /\
+  sp s' = SStart /\ lis_open s' = true /\ cancelled s' = false /\ upto s' = length (conns s).
+Proof.
+  intros H. unf H. destruct (crashed s); [discriminate|]. destruct (sp s); try discriminate.
+  destruct (cancelled s && negb (shut s) && negb false) eqn:E; try discriminate.
+  apply andb_prop in E as [E _]. apply andb_prop in E as [_ E]. destruct (shut s) eqn:Es; try discriminate.
+  injection H as <-. cbn. rewrite Es. repeat split; reflexivity.
+Qed.
+
+(* first serve: one connection, a handler in flight; the context is cancelled, serve returns; the same
+   Server is served again; Shutdown *)
+Definition reserve_prefix : list label :=
+  [LServeCb; LPublish; LAccept 0; LCtxPass 0; LTrack 0; LConnRead 0 RData; LHandleStart 0; LHandlerStart 0;
+   LCancel; LAfterClose; LServeReturn EClosed; LReServe; LServeCb; LPublish; LSdCall; LSdBegin].
+(* serve() allocating the map afresh: Shutdown returns nil at once, the started handler has no reply yet,
+   the old connection stays open *)
+Lemma map_reset_loses_connections :
+  exists s x, reach MapReset cfg_none s /\ sd s = SdReturned ENil /\ get s 0 = Some x /\
+              ph x = PInHandler /\ owed x = [0] /\ replied x = 0 /\ sock x = true /\ inmap x = false /\ count s = 1%Z.
+Proof.
+  destruct (run MapReset cfg_none init (reserve_prefix ++ [LSdReturn])) as [s|] eqn:E; [|vm_compute in E; discriminate].
+  exists s. vm_compute in E. injection E as <-. eexists. split; [apply (run_reach _ _ (reserve_prefix ++ [LSdReturn])); vm_compute; reflexivity|].
+  repeat split; reflexivity.
+Qed.
+(* now: Shutdown cannot return while that handler runs; it returns nil after the reply has been written and
+   the old connection has been closed *)
+Lemma now_reserve_shutdown_waits :
+  exists s1, run GuardNow cfg_none init reserve_prefix = Some s1 /\
+    step GuardNow cfg_none s1 LSdReturn = None /\
+    exists s2 x, run GuardNow cfg_none s1
+                   [LSdCas 0; LSdLoad 0; LSdPassEnd; LHandlerEnd 0 true; LReplyWrite 0 true; LHandleEnd 0; LConnCtxExit 0;
+                    LConnLeave 0; LSdRetry; LSdCas 0; LSdLoad 0; LSdClose 0; LSdReturn] = Some s2 /\
+      sd s2 = SdReturned ENil /\ get s2 0 = Some x /\ replied x = 1 /\ owed x = [] /\ sock x = false /\ inmap x = false.
+Proof.
+  eexists. split; [vm_compute; reflexivity|]. split; [vm_compute; reflexivity|].
+  eexists. eexists. split; [vm_compute; reflexivity|]. repeat split; reflexivity.
+Qed.
